@@ -101,12 +101,16 @@ var props = map[string]*Prop{
 	},
 	"C18": {
 		Level: "exploration",
-		Rule: "(a) every signature list of size <=3 over a 4-entry pool (unicode/RTL names, escapes, empty and nil optional fields, control-flow hints, a repeated ID) and generated lists of 999/1000/1001/2001 entries with IDs repeated adjacent, far apart and across every 1000-entry batch boundary are migrated into a fresh database and exported; EVERY truncation offset of the small lists' JSON (and every offset around batch boundaries and the tail for the big ones) and an 8-entry malformed menu are migrated as well; (b) every history of <=3 steps over {AddSignature, AddSignatures(1-2 entries, repeated and generated IDs), save+load / close+reopen} on both back ends with a fetch of every added ID after every step; (c) see unit save-atomicity. Non-trivial = distinct list / history.",
+		Rule: "(a) every signature list of size <=3 over a 4-entry pool (unicode/RTL names, escapes, empty and nil optional fields, control-flow hints, a repeated ID) and generated lists of 999/1000/1001/2001 entries with IDs repeated adjacent, far apart and across every 1000-entry batch boundary are migrated into a fresh database and exported; EVERY truncation offset of the small lists' JSON (and every offset around batch boundaries and the tail for the big ones) and an 8-entry malformed menu are migrated as well; (b) every history of <=3 steps over {AddSignature, AddSignatures(1-2 entries, repeated and generated IDs), save+load / close+reopen} on both back ends with a fetch of every added ID after every step; (c) SaveDatabase over an existing database with the os package replaced by a shim over a logging in-memory file system: every prefix of its file operations x durable-image variants must leave the old or the new file (crash points), and all interleavings (preemption bound 2/3) of two concurrent savers with loaders must never show a loader a torn file or fail a save. Non-trivial = distinct list / history.",
 		Assumptions: []string{"gob and omitempty cannot distinguish nil from empty slices nor a nil from a zero control-flow block: compared modulo that", "a truncated file that is migrated without error is accepted only if the store then holds the last-wins set of the WHOLE untruncated file (losing only trailing brackets is not a short success)"},
 		Bounds:      map[string]string{"quick": "lists <=3, one big list (1001), histories <=3", "thorough": "lists <=3, big lists 999/1000/1001/2001, histories <=3"},
 		Units: []Unit{
 			{Name: "migrate-roundtrip", Pkg: "pkg/storage/pebbledb", Test: "TestVerifC18Migrate", Shards: sh(16, 16), TimeoutS: sh(900, 3600), DeadlineS: sh(400, 2400)},
 			{Name: "add-get-histories", Pkg: "pkg/storage/pebbledb", Test: "TestVerifC18AddGet", Shards: sh(8, 8), TimeoutS: sh(900, 3600)},
+			{Name: "save-crash-points", Pkg: "pkg/storage/jsondb", Test: "TestVerifC18SaveCrash", Tags: []string{"verif_vos"}, Shards: sh(1, 1),
+				Profile: ovgen.Profile{Imports: []ovgen.ImportRewrite{{File: "pkg/storage/jsondb/json_store.go", Map: map[string]string{"os": ovgen.ShimBase + "vos", "sync": ovgen.ShimBase + "vsync"}}}}},
+			{Name: "save-interleavings", Pkg: "pkg/storage/jsondb", Test: "TestVerifC18SaveSchedules", Tags: []string{"verif_vos"}, Shards: sh(3, 3), GoMaxProcs: 2, TimeoutS: sh(900, 3600), DeadlineS: sh(300, 1800),
+				Profile: ovgen.Profile{Imports: []ovgen.ImportRewrite{{File: "pkg/storage/jsondb/json_store.go", Map: map[string]string{"os": ovgen.ShimBase + "vos", "sync": ovgen.ShimBase + "vsync"}}}}},
 		},
 	},
 	"C11": {
